@@ -63,7 +63,7 @@ func genC20(t *rapid.T) c20Case {
 		nops := rapid.IntRange(0, 6).Draw(t, "nops")
 		for j := 0; j < nops && !cc.Refused; j++ {
 			op := c20Op{
-				Kind:    rapid.SampledFrom([]string{"complete", "complete", "start", "start", "continue", "continue", "even-first", "replay", "badkey", "eof-mid", "eof"}).Draw(t, "kind"),
+				Kind:    rapid.SampledFrom([]string{"complete", "complete", "start", "start", "start", "continue", "continue", "even-first", "even-open", "replay", "badkey", "eof-mid", "eof"}).Draw(t, "kind"),
 				Session: rapid.Uint32Range(1, 3).Draw(t, "session"),
 			}
 			cc.Ops = append(cc.Ops, op)
@@ -189,6 +189,12 @@ func runC20(t failer, c c20Case) (abandoned, rejected int) {
 			case "even-first":
 				wire = pkt(2, op.Session+100, false)
 				rejected++
+			case "even-open":
+				if !open {
+					continue
+				}
+				wire = pkt(last+2-last%2, op.Session, false) // the next even number on a waiting session
+				rejected++
 			case "replay":
 				if !open {
 					continue
@@ -261,7 +267,7 @@ func TestC20(t *testing.T) {
 }
 
 func TestC20Enum(t *testing.T) {
-	kinds := []string{"complete", "start", "continue", "even-first", "replay", "badkey", "eof-mid", "eof"}
+	kinds := []string{"complete", "start", "continue", "even-first", "even-open", "replay", "badkey", "eof-mid", "eof"}
 	for _, k1 := range kinds {
 		for _, k2 := range kinds {
 			c := c20Case{Conns: []c20Conn{{Ops: []c20Op{{Kind: "start", Session: 1}, {Kind: k1, Session: 1}, {Kind: k2, Session: 2}}}, {Ops: []c20Op{{Kind: k2, Session: 1}, {Kind: k1, Session: 1}}}, {Refused: true}}}
